@@ -69,6 +69,7 @@ type reloadSpec struct {
 	Attrs        map[string]string `json:"attrs,omitempty"`
 	SetAttrs     bool              `json:"set_attrs,omitempty"`
 	Sampler      *samplerSpec      `json:"sampler,omitempty"`
+	DryRun       *bool             `json:"dry_run,omitempty"`
 }
 
 type opSpec struct {
@@ -143,6 +144,7 @@ type cfgSnapshot struct {
 	AddReason, AddSpanCount, AddCounts, AddHost bool
 	Attrs                                      map[string]string
 	Sampler                                    samplerSpec
+	DryRun                                     bool
 	Gen                                        int // reload generation
 }
 
@@ -468,7 +470,7 @@ func runInBubble(c colCase, opt execOpts, obs *colObs) {
 	obs.Decisions = map[string]decisionObs{}
 	models := map[int]*traceModel{}
 	snap := cfgSnapshot{AddReason: c.Cfg.AddReason, AddSpanCount: c.Cfg.AddSpanCount, AddCounts: c.Cfg.AddCounts, AddHost: c.Cfg.AddHost,
-		Attrs: copyAttrs(c.Cfg.Attrs), Sampler: c.Cfg.Sampler}
+		Attrs: copyAttrs(c.Cfg.Attrs), Sampler: c.Cfg.Sampler, DryRun: c.Cfg.DryRun}
 	uidN := 0
 	stressFirst := map[int]bool{} // traces first seen on the stress-relief path
 
@@ -617,6 +619,10 @@ func runInBubble(c colCase, opt execOpts, obs *colObs) {
 			if r.SetAttrs {
 				cfg.AdditionalAttributes = copyAttrs(r.Attrs)
 				snap.Attrs = copyAttrs(r.Attrs)
+			}
+			if r.DryRun != nil {
+				cfg.DryRun = *r.DryRun
+				snap.DryRun = *r.DryRun
 			}
 			if r.Sampler != nil {
 				cfg.GetSamplerTypeVal, cfg.GetSamplerTypeName = samplerConfig(*r.Sampler)
